@@ -757,6 +757,17 @@ impl WithT for SndRun<'_> {
                     if ns_ != s || fr != payload {
                         return Err(format!("{}: token {} does not belong to the completed transfer", what, tok));
                     }
+                    // the caller may first acknowledge a transfer that is not the next completion:
+                    // that fails and changes nothing
+                    if *pick & 1 == 1 {
+                        if let Some(other) = nb.get((*pick as usize >> 1) % nb.len().max(1)).map(|x| x.0) {
+                            let r2 = g!(what, snd.pcm_xfer_ok(other));
+                            if r2.is_ok() {
+                                return Err(format!("{}: pcm_xfer_ok({}) succeeded although the next completion belongs to token {}", what, other, tok));
+                            }
+                            chk(&dev)?;
+                        }
+                    }
                     let r = g!(what, snd.pcm_xfer_ok(tok));
                     if r.is_err() {
                         return Err(format!("{}: pcm_xfer_ok({}) returned {:?}", what, tok, r));
